@@ -353,6 +353,8 @@ DEFAULT_PROFILE = dict(
     p_anntype_foreign=0.3,
     max_omitted=3,
     p_hostile_doc=0.0,
+    route_result_kinds=None,
+    route_alias_user_only=False,
 )
 
 
@@ -936,6 +938,8 @@ class Gen:
     def route_io(self, ns, slot):
         r = self.rnd
         kinds = self.p['route_arg_kinds']
+        if slot != 'arg' and self.p.get('route_result_kinds'):
+            kinds = self.p['route_result_kinds']
         k = r.choice(kinds)
         if k == 'void':
             return VOID
@@ -946,6 +950,9 @@ class Gen:
         cands_s = self.user_types(ns, ('struct',))
         cands_u = self.user_types(ns, ('union',))
         cands_a = self.user_types(ns, ('alias',))
+        if self.p.get('route_alias_user_only'):
+            cands_a = [a for a in cands_a if not self.m.is_nullable(ref(a.ns, a.name)) and
+                       self.m.target(ref(a.ns, a.name)) is not None]
         if k == 'struct' and cands_s:
             d = r.choice(cands_s)
             return ref(d.ns, d.name)
